@@ -4,9 +4,9 @@ id="$1"; tier="${2:-quick}"; prop=$(echo "$id" | cut -c1-3)
 [ -n "${3:-}" ] && prop="$3"
 cd /verif || exit 2
 git -C /repo diff --quiet || { echo "/repo not clean"; exit 2; }
-git -C /repo apply /verif/seeded/$id/patch.diff 2>/dev/null || (cd /repo && patch -p1 -F3 -s --no-backup-if-mismatch < /verif/seeded/$id/patch.diff) || { git -C /repo checkout -- .; echo 'patch does not apply'; exit 2; }
+git -C /repo apply /verif/seeded/$id/patch.diff 2>/dev/null || (cd /repo && patch -p1 -F3 -s --no-backup-if-mismatch < /verif/seeded/$id/patch.diff) || { git -C /repo checkout -- .; git -C /repo clean -fdq -- edzed; echo "patch does not apply"; exit 2; }
 cp evidence/$prop.json /tmp/mut/ev_$prop.json 2>/dev/null
 ./check $prop --tier $tier > /tmp/mut/try_$id.log 2>&1; rc=$?
 cp /tmp/mut/ev_$prop.json evidence/$prop.json 2>/dev/null
-git -C /repo checkout -- .
+git -C /repo checkout -- .; git -C /repo clean -fdq -- edzed
 grep -E "^(VIOLATION|KNOWN|BROKEN|\[C)" /tmp/mut/try_$id.log; echo "exit=$rc"
